@@ -220,6 +220,8 @@ async def run_script(env, loop, ctr0, ops):
                 await conn.send(env.kinds["h"][0](), expect_response=False)
             except E.KafkaConnectionError:
                 pass
+            except Exception as ex:  # noqa: BLE001 - anything else from the code under test is an observation
+                results.setdefault(9000 + len(results), []).append(f"other:noreply-{type(ex).__name__}")
         elif act[0] == "sasl":
             try:
                 aw = conn._send_sasl_token(b"tok")
@@ -359,6 +361,8 @@ def run(ctx):
     hist = {}
     for t in impl:
         for item in (t.split(" ")[2].split(",") if t.count(" ") >= 2 and t.split(" ")[2] != "-" else []):
+            if ":" not in item or t.startswith("harness-exception"):
+                continue
             o = item.split(":")[1]
             hist[o] = hist.get(o, 0) + 1
     ctx.coverage["outcome_distribution"] = hist
@@ -366,7 +370,12 @@ def run(ctx):
         return
     for i in mism:
         if impl[i].startswith("harness-exception"):
-            raise HarnessError(impl[i] + " on " + lines[i][:200])
+            # driving the real connection through the script raised: on the unchanged code no script does
+            # (every exception the connection can hand to a caller is caught and recorded as an outcome)
+            ctx.violation("c12:script-raised:" + impl[i].split(":")[1][:30],
+                          f"the connection raised out of an operation no caller could catch as a waiter outcome: {impl[i][:200]} on {lines[i][:200]}",
+                          {"cases": [meta[i]], "observed": impl[i], "model": res[i]})
+            return
         why = holds(lines[i], impl[i], meta[i]["ops"])
         if why:
             ctx.violation("c12:" + why.split(" ")[0] + ":" + why.split(" ")[-1][:20], f"{why}: {lines[i][:200]} -> {impl[i][:200]}",
